@@ -697,7 +697,7 @@ func (f *e1func) pureExpr(e ast.Expr) bool {
 		}
 		// getters only: Get*/Is*/well-known accessors
 		n := fn.Name()
-		if strings.HasPrefix(n, "Get") || strings.HasPrefix(n, "Is") || n == "FormValue" || n == "Context" || n == "Query" || n == "Get" ||
+		if strings.HasPrefix(n, "Get") || strings.HasPrefix(n, "Is") || n == "FormValue" || n == "Context" || n == "Get" ||
 			n == "AuthMethod" || n == "Storage" || n == "ApplicationType" || n == "ResponseTypes" || n == "RedirectURIs" || n == "Done" ||
 			n == "String" || n == "Seconds" || n == "Decoder" || n == "Crypto" || n == "Logger" || n == "Header" {
 			return true
